@@ -12,7 +12,7 @@ func init() {
 			{Name: "H_C13_untrained", Tier: "quick", What: "Add / search before training and Train with too few vectors are errors", Covers: []string{"ran"}},
 			{Name: "H_C13_ivf_t", Tier: "thorough", What: "nlist=2, n=2: symbolic stored vectors x symbolic k x symbolic nprobes x id filter (no threshold, no removals)", Covers: []string{"full-probe", "partial-probe"}},
 			{Name: "H_C13_ivf_t_th", Tier: "thorough", What: "nlist=2, n=2: symbolic stored vectors x symbolic threshold, nprobes in {1, all}", Covers: []string{"full-probe", "partial-probe"}},
-			{Name: "H_C13_ivf_t3", Tier: "thorough", What: "nlist=3, n=3 symbolic, nprobes in {1,2,3}", Covers: []string{"full-probe", "partial-probe"}},
+			{Name: "H_C13_ivf_t3", Tier: "thorough", What: "nlist=3, n=2 symbolic stored vectors, symbolic k, nprobes in {1,2,3}", Covers: []string{"full-probe", "partial-probe"}},
 			{Name: "H_C13_ivf_d2", Tier: "thorough", What: "d=2", Covers: []string{"full-probe", "partial-probe"}},
 		},
 		Bounds:      []string{"nlist<=2 (3 thorough), n<=3 vectors, d=1 (2 thorough), trained state built directly with symbolic centroids (a superset of what Train produces)", "k, nprobes over all of int; threshold all float32>=0; 3 metrics"},
